@@ -591,6 +591,94 @@ func restart(r *rep.Report, e rep.Env) {
 	}
 }
 
+// noOccurrence: schedules that are well-formed but have no (further) occurrence, on the built-in
+// cron.  Replacing a ticking rule by such a rule is either refused (then the old rule keeps
+// ticking) or accepted (then nothing ticks); a location that holds such a rule still loads.
+func noOccurrence(r *rep.Report, e rep.Env) {
+	for _, linear := range []bool{false, true} {
+		path := fmt.Sprintf("%s/c15-noocc-%v.db", e.Out, linear)
+		os.Remove(path)
+		mk := func() (*sys.System, *cron.Cron, error) {
+			ctx := drv.Ctx()
+			cr, _ := cron.NewCron(cron.NewCronBroadcaster(), time.Second, "verif-noocc", 100000)
+			go cr.Start(ctx)
+			conf := sys.ExampleConfig()
+			conf.Storage = "bolt"
+			conf.StorageConfig = path
+			conf.UnindexedState = linear
+			cont := sys.ExampleSystemControl()
+			cont.LocationTTL = sys.Forever
+			cont.DefaultLocControl = &core.Control{MaxFacts: 1000, Verbosity: core.NOTHING}
+			s, err := sys.NewSystem(ctx, *conf, *cont, &cron.InternalCron{Cron: cr})
+			return s, cr, err
+		}
+		s, cr, err := mk()
+		if err != nil {
+			r.Violate("", "cannot build system: "+err.Error(), nil)
+			continue
+		}
+		tick := `{"schedule":"* * * * * * *","action":{"code":"Env.AddFact('t' + Math.floor(Math.random()*1e9), {at:location}); 1"}}`
+		never := `{"schedule":"0 0 0 30 2 * *","action":{"code":"Env.AddFact('never',{at:location}); 1"}}`
+		start := time.Now()
+		canary := make(chan time.Duration, 1)
+		time.AfterFunc(time.Second, func() { canary <- time.Since(start) })
+		_, e1 := s.AddRule(drv.Ctx(), "N", "r", tick)
+		s.AddFact(drv.Ctx(), "N", "plain", `{"a":1}`)
+		time.Sleep(1300 * time.Millisecond)
+		_, e2 := s.AddRule(drv.Ctx(), "N", "r", never)  // replacement
+		_, e3 := s.AddRule(drv.Ctx(), "N", "r2", never) // a new rule of that kind
+		time.Sleep(200 * time.Millisecond)
+		count := func(s *sys.System) int {
+			srs, err := s.SearchFacts(drv.Ctx(), "N", `{"at":"?l"}`, false)
+			if err != nil {
+				return -1
+			}
+			return len(srs.Found)
+		}
+		before := count(s)
+		time.Sleep(2300 * time.Millisecond)
+		after := count(s)
+		late := <-canary - time.Second
+		stored, gerr := s.GetRule(drv.Ctx(), "N", "r")
+		cr.Kill(drv.Ctx())
+		s.Close(drv.Ctx())
+		// the restarted process loads the location (and whatever rules it holds) again
+		s2, cr2, err := mk()
+		perr := err
+		if err == nil {
+			_, perr = s2.GetFact(drv.Ctx(), "N", "plain")
+			cr2.Kill(drv.Ctx())
+			s2.Close(drv.Ctx())
+		}
+		os.Remove(path)
+		r.Case(true, fmt.Sprint("no-occurrence", linear))
+		r.Count("no_occurrence_rule_cases", 1)
+		wit := rep.J{"linear": linear, "add_ticking_rule": drv.ErrStr(e1), "replace_by_never_rule": drv.ErrStr(e2), "add_never_rule": drv.ErrStr(e3), "ticks_before": before, "ticks_after": after, "stored_rule_r": stored, "get_rule_error": drv.ErrStr(gerr), "plain_fact_after_restart": drv.ErrStr(perr)}
+		if late > time.Second {
+			r.Inconclusive("canary late")
+			continue
+		}
+		if e1 != nil || before < 1 {
+			r.Violate("", "an every-second rule on the built-in cron did not tick", wit)
+			continue
+		}
+		if perr != nil {
+			r.Violate("", "after a restart a location that holds a rule whose schedule has no occurrence cannot be loaded", wit)
+			continue
+		}
+		if e2 != nil {
+			// refused: the old rule is still the stored one and must keep ticking
+			if !strings.Contains(stored, "* * * * * * *") {
+				r.Violate("", "a refused replacement of a scheduled rule changed the stored rule", wit)
+			} else if after <= before {
+				r.Violate("", "a scheduled rule stopped ticking after its replacement by a rule without occurrences was refused", wit)
+			}
+		} else if after > before+1 {
+			r.Violate("", "a scheduled rule keeps ticking after it was replaced by a rule whose schedule has no occurrence", wit)
+		}
+	}
+}
+
 // eventText: what the engine registers with the cron service is a piece of text (the event the
 // cron is to send back).  For every rule id, whatever characters it contains, that text must be
 // JSON for exactly {"trigger!": id}, and sending it back must run that rule and no other.
@@ -644,6 +732,7 @@ func main() {
 	switch e.Stage {
 	case "timed":
 		eventText(r)
+		noOccurrence(r, e)
 		restart(r, e)
 		collisions(r)
 		expiry(r)
